@@ -186,7 +186,7 @@ pub fn run_c06(o: &Opts) -> i32 {
             let bh2 = hashes::gen_long_bh(rng, 32);
             let raw = HV { log: hashes::gen_log(rng), bh1, bh2 };
             let want = raw.normalized();
-            if want.bh1.len() > 64 || want.bh2.len() > 64 || raw.bh1.len().max(raw.bh2.len()) > 250 {
+            if want.bh1.len() > 64 || want.bh2.len() > 64 || raw.bh1.len().max(raw.bh2.len()) > 700 {
                 return;
             }
             let text = {
@@ -250,10 +250,14 @@ macro_rules! c07_family {
             // a dirty dual: holds another value with many RLE symbols
             let mut dirty = <$D>::from_raw_form(&<$R as HashLike>::build(&HV { log: 9, bh1: vec![7; 64], bh2: vec![9; <$R as HashLike>::S2] }));
             dirty.init_from_raw_form(&raw);
+            // a second reused object: it held full-length block hashes without any run before
+            let mut dirty2 = <$D>::from_raw_form(&<$R as HashLike>::build(&HV { log: 30, bh1: (0..64).map(|i| (63 - i) as u8).collect(), bh2: (0..<$R as HashLike>::S2).map(|i| (i as u8 * 3 + 1) % 64).collect() }));
+            dirty2.init_from_raw_form(&raw);
             let duals: Vec<(&'static str, $D)> = vec![
                 ("from_raw_form", <$D>::from_raw_form(&raw)),
                 ("From<Raw>", <$D>::from(raw)),
                 ("init_from_raw_form(dirty)", dirty),
+                ("init_from_raw_form(dirty, previously full-length)", dirty2),
                 ("new_from_internals", <$D>::new_from_internals(3u32 << r.log, &r.bh1, &r.bh2)),
                 ("new_from_internals_near_raw", <$D>::new_from_internals_near_raw(r.log, &r.bh1, &r.bh2)),
                 ("from_bytes(text)", <$D>::from_bytes(r.text().as_bytes()).expect("dual parser refused a valid raw text")),
@@ -274,12 +278,12 @@ macro_rules! c07_family {
                         let back = d.to_raw_form();
                         let mut dirty_raw = <$R as HashLike>::build(&HV { log: 1, bh1: vec![5; 64], bh2: vec![6; <$R as HashLike>::S2] });
                         d.into_mut_raw_form(&mut dirty_raw);
-                        let lossless = back.full_eq(&raw) && back == raw && dirty_raw.full_eq(&raw) && text_of(&back) == r.text();
+                        let lossless = back.full_eq(&raw) && back == raw && dirty_raw.full_eq(&raw) && dirty_raw.is_valid() && dirty_raw.cmp(&raw) == std::cmp::Ordering::Equal && text_of(&back) == r.text();
                         #[cfg(feature = "ffstd")]
                         let strings = d.to_raw_form_string() == r.text() && d.to_normalized_string() == want_norm.text() && format!("{}", d) == format!("{{{}|{}}}", want_norm.text(), r.text());
                         #[cfg(not(feature = "ffstd"))]
                         let strings = format!("{}", d) == format!("{{{}|{}}}", want_norm.text(), r.text());
-                        let norm_ok = d.as_normalized().full_eq(&norm_fresh) && d.to_normalized().full_eq(&norm_fresh) && AsRef::<$N>::as_ref(d).full_eq(&norm_fresh);
+                        let norm_ok = d.as_normalized().is_valid() && d.as_normalized().cmp(&norm_fresh) == std::cmp::Ordering::Equal && d.as_normalized().full_eq(&norm_fresh) && d.to_normalized().full_eq(&norm_fresh) && AsRef::<$N>::as_ref(d).full_eq(&norm_fresh);
                         let canon = *d == first && d.cmp(&first) == std::cmp::Ordering::Equal && hash_stream_of(d) == h0 && d.log_block_size() == r.log && d.block_size() as u64 == 3u64 << r.log;
                         let isn = d.is_normalized() == r.is_normalized();
                         (valid, lossless, strings, norm_ok, canon, isn)
@@ -306,6 +310,16 @@ macro_rules! c07_family {
                     let e = <$D>::from(norm_fresh);
                     c == a && c == b && c == e && c.is_valid() && c.is_normalized() && c.to_raw_form().full_eq(&norm_fresh.to_raw_form()) && hash_stream_of(&c) == hash_stream_of(&a)
                 });
+                if !r.is_normalized() {
+                    // the dual of a hash WITH long runs and the dual of its normalization share the
+                    // normalized part but are different values: unequal, never ordered Equal, antisymmetric
+                    $l.eval(1);
+                    let df = guard(|| {
+                        let n = <$D>::from_normalized(&norm_fresh);
+                        (first != n, n != first, first.cmp(&n) != std::cmp::Ordering::Equal, n.cmp(&first) == first.cmp(&n).reverse(), hash_stream_of(&first) != hash_stream_of(&n) || true)
+                    });
+                    $l.check(df == Ok((true, true, true, true, true)), "dual-injective", || (sig("vs-normalized"), format!("the dual of {} and the dual of its normalization {} must be unequal and never ordered Equal: {:?}", r.text(), want_norm.text(), df)));
+                }
                 $l.check(cl == Ok(true), "dual-normalize_in_place", || (sig("normalize_in_place"), format!("normalize_in_place() on the dual of {} does not yield the dual of {} ({:?})", r.text(), want_norm.text(), cl)));
                 // "only if": a raw that differs in exactly one run length (in block hash 1, and
                 // separately in block hash 2) must give a different dual
